@@ -356,6 +356,13 @@ class OrderedRingBuffer(Generic[FloatArray]):
                 f"start ({start}) and end ({end}) must both be either datetime or index."
             )
 
+        # Timestamps that are not aligned to the sampling period refer to the slot they
+        # would be stored in.  Without this, the internal start and end positions could
+        # be the same for a non-empty or empty range (returning the whole buffer), and
+        # the gaps would be filled at shifted positions.
+        start = self.normalize_timestamp(start)
+        end = self.normalize_timestamp(end)
+
         # Ensure that the window is within the bounds of the buffer
         assert self.oldest_timestamp is not None and self.newest_timestamp is not None
         start = max(start, self.oldest_timestamp)
